@@ -40,6 +40,7 @@ PY
   res="{}"
   for p in $ps; do
     o=$(./bin/govc check -prop "$p" -repo "$wt" -verif "$vf" -workers 5 2>&1); rc=$?
+    [ "$rc" = 2 ] && echo "$o" | tail -30 > "/tmp/seedcheck_err_${name}_${p}.log"
     n=$(echo "$o" | grep -c '^VIOLATION'); first=$(echo "$o" | grep '^VIOLATION' | head -3 | sed 's/.*obligation=//' | tr '\n' ';')
     res=$(python3 -c "import json,sys; d=json.loads(sys.argv[1]); d[sys.argv[2]]={'exit':int(sys.argv[3]),'violations':int(sys.argv[4]),'first_obligations':sys.argv[5]}; print(json.dumps(d))" "$res" "$p" "$rc" "$n" "$first")
   done
